@@ -791,3 +791,17 @@ Example C16_first_interpretation_is_maximal :
                                         [HNone; HInt 3%Z; HInt (-1)%Z; HInst 5%Z; HGlobObj; HBad]) opt_grid)
           (seedable_eps ++ [E_cp_plsr; E_power_iteration; E_tt_svd; E_rng_free]) = true.
 Proof. vm_compute. reflexivity. Qed.
+
+(* a child generator in the first language ([Reseed]: rng = RandomState(<expr of the values drawn so far>), e.g. a sampler seeded
+   with rng.randint(2**31)): the conservative analysis leaves it to the join-precise one (the seed may be out of range), which
+   accepts it -- so C16_join_precise_analysis, the history theorems and, through the embedding, the source-level theorems
+   cover it: same outcome from two global states, three draws, the global generator untouched; seeding the child from a draw of
+   the GLOBAL generator is rejected *)
+Example C16_child_generator_first_language :
+  let sk := Seq Check (Seq (Draw 1) (Seq (Reseed 2) (Seq (Draw 3) (Draw 3)))) in
+  global_free sk PInt = false /\ global_free_w sk = true /\ pglobal_free (embed sk) = true /\
+  fst (call Z Z nat toy_draw toy_seed toy_env toy_interp sk (HInt 3%Z) 0%Z) = fst (call Z Z nat toy_draw toy_seed toy_env toy_interp sk (HInt 3%Z) 9%Z) /\
+  length (o_hist (fst (call Z Z nat toy_draw toy_seed toy_env toy_interp sk (HInt 3%Z) 0%Z))) = 3 /\
+  snd (call Z Z nat toy_draw toy_seed toy_env toy_interp sk (HInt 3%Z) 0%Z) = 0%Z /\
+  global_free_w (Seq (Call ANone (Seq Check (Draw 1))) (Seq (Reseed 2) (Draw 3))) = false.
+Proof. vm_compute. repeat split; reflexivity. Qed.
